@@ -1,4 +1,4 @@
 ---------------------------- MODULE WindowRingMC ----------------------------
 EXTENDS WindowRing
-ASSUME FirstDueMeaning
+ASSUME FirstDueMeaning(MaxTime)
 =============================================================================
